@@ -1335,6 +1335,9 @@ def build_seqpam_mapping_optimization_workflow(
                 ApplyPlacement(),
                 UnfoldPass(),
             ],
+            # A single-qudit circuit needs no routing, but it still has to
+            # be placed on the machine like every other compiled circuit.
+            [ApplyPlacement()],
         ),
         name='SeqPAM Mapping',
     )
